@@ -917,6 +917,9 @@ class GroupBy:
                     y_counts=chunk_count,  # groups absent from this chunk contribute nothing
                 )
                 count[pointer] += chunk_count
+            if func_name in ("size", "count"):
+                # the result of a counting function is the count itself (plus the empty slot for the null key)
+                combined = np.concatenate([count, np.zeros(1, dtype=count.dtype)])
             individual_results.append((combined, count))
 
         return individual_results
